@@ -1,4 +1,5 @@
 pub mod par;
+pub mod probe;
 pub mod report;
 pub mod rng;
 
